@@ -95,6 +95,17 @@ def plumb(ctx, fields: Iterable[str], skip=()):
     # caller's value - int(7.75) is 7, float(np.float32(x)) is another number than x
     saved_ev2, ctx.evidence = ctx.evidence, True
     try:
+        adm = ana.prog.classes.get("fast_ticc.containers.arguments.ADMMArguments")
+        for m_ in (list(adm.methods.values()) if adm is not None else []):
+            if m_.name in ("__init__",):
+                continue
+            for n in Resolver.walk_own(m_.node):
+                if isinstance(n, ast.Attribute) and isinstance(n.ctx, ast.Store) and n.attr in fields and isinstance(n.value, ast.Name) and n.value.id == "self":
+                    ctx.fail(m_, f"ADMMArguments.{m_.name} re-assigns the field `{n.attr}`: the optimiser no longer works with the caller's value", line=n.lineno,
+                             role=f"plumb-store:ADMMArguments.{m_.name}:{n.attr}", expected="fields keep the constructor's values", found=unparse(n))
+                if isinstance(n, ast.Call) and isinstance(n.func, ast.Name) and n.func.id == "setattr" and n.args and isinstance(n.args[0], ast.Name) and n.args[0].id == "self":
+                    ctx.fail(m_, f"ADMMArguments.{m_.name} re-assigns fields through setattr", line=n.lineno, role=f"plumb-store:ADMMArguments.{m_.name}:setattr",
+                             expected="fields keep the constructor's values", found=unparse(n, 60))
         for m_ in ua.methods.values():
             if m_.name in ("__init__",):
                 continue
